@@ -39,3 +39,18 @@ Proof.
   intros p evs Hin. rewrite forallb_forall in H. exact (H _ Hin).
 Qed.
 Print Assumptions C13_workers_count_and_publish_once.
+
+(* the RECEIVE loops of run(), regenerated from the source (Gen/Receive.v): take a buffer, read one datagram into it, go round again
+   on a read ERROR and on nothing else (not on a length of 0), otherwise count it and queue exactly its octets with its source *)
+From VF Require Gen.Receive.
+Theorem C13_receive_loops_count_every_datagram : forall p evs, In (p, evs) Gen.Receive.receive_loops -> WorkerDiscipline.receive_ok evs = true.
+Proof.
+  intros p evs Hin. unfold Gen.Receive.receive_loops in Hin. cbn [In] in Hin.
+  repeat (destruct Hin as [Hin|Hin]; [injection Hin as _ <-; vm_compute; reflexivity|]). contradiction.
+Qed.
+Print Assumptions C13_receive_loops_count_every_datagram.
+
+Example C13_receive_discipline_rejects :
+  WorkerDiscipline.receive_ok ["Get"; "Deadline"; "Read"; "Skip:E != nil || N == 0"; "Count"; "Send:A,B[:N]"]%string = false /\
+  WorkerDiscipline.receive_ok ["Get"; "Deadline"; "Read"; "Skip:E != nil"; "Send:A,B[:N]"; "Count"]%string = false.
+Proof. vm_compute. split; reflexivity. Qed.
